@@ -7,7 +7,55 @@ ENV = dict(os.environ, GOFLAGS="-mod=mod", GOPROXY="off", GOSUMDB="off", GOTOOLC
 def sh(cmd, cwd=None, timeout=3600):
     p = subprocess.run(cmd, shell=True, cwd=cwd, env=ENV, capture_output=True, text=True, timeout=timeout)
     return p.returncode, p.stdout + p.stderr
+def one_scratch(d):
+    """apply the change in a scratch worktree and point the harness at it through -modfile"""
+    name = os.path.basename(os.path.dirname(d))
+    meta = json.load(open(os.path.join(os.path.dirname(d), "meta.json")))
+    checks = meta.get("caught_by") or [meta["property"]]
+    wt = f"/tmp/sa-{name}-{os.getpid()}"
+    try:
+        rc, out = sh(f"git -C /repo worktree add -q --detach {wt} HEAD")
+        assert rc == 0, out
+        rc, out = sh(f"git apply {d}", cwd=wt)
+        if rc != 0:
+            return name, {"applies": False}
+        mod = open(os.path.join(VERIF, "harness", "go.mod")).read().replace("=> /repo", "=> " + wt)
+        open(wt + ".mod", "w").write(mod)
+        sh(f"cp {VERIF}/harness/go.sum {wt}.sum")
+        os.makedirs(wt + ".ev", exist_ok=True)
+        caught = []
+        for c in checks:
+            rc, out = sh(f"VERIF_MODFILE={wt}.mod VERIF_EVIDENCE_DIR={wt}.ev VERIF_JOBS=6 python3 bin/check.py {c} --tier quick", cwd=VERIF)
+            if rc == 1:
+                caught.append(c)
+        return name, {"applies": True, "checks": checks, "caught_by": caught, "via": "scratch worktree"}
+    finally:
+        sh(f"git -C /repo worktree remove --force {wt}")
+        sh(f"rm -rf {wt} {wt}.mod {wt}.sum {wt}.ev")
+
+
+def main_scratch(prefix, par):
+    from concurrent.futures import ThreadPoolExecutor
+    ds = sorted(glob.glob(os.path.join(VERIF, "seeded", prefix + "*", "patch.diff")))
+    results = {}
+    with ThreadPoolExecutor(max_workers=par) as ex:
+        for name, res in ex.map(one_scratch, ds):
+            results[name] = res
+            print(name, "caught by", res.get("caught_by") or ("DOES NOT APPLY" if not res.get("applies") else "NOTHING"), flush=True)
+    old = {}
+    rp = os.path.join(VERIF, "seeded", "RESULTS.json")
+    if prefix and os.path.exists(rp):
+        old = json.load(open(rp))
+    old.update(results)
+    json.dump(old, open(rp, "w"), indent=1, sort_keys=True)
+    print("missed:", [k for k, v in results.items() if v.get("applies") and not v.get("caught_by")])
+    print("do not apply:", [k for k, v in results.items() if not v.get("applies")])
+
+
 def main():
+    if "--scratch" in sys.argv:
+        args = [a for a in sys.argv[1:] if a != "--scratch"]
+        return main_scratch(args[0] if args else "", int(os.environ.get("SEEDALL_PAR", "3")))
     prefix = sys.argv[1] if len(sys.argv) > 1 else ""
     rc, out = sh("git -C /repo status --short")
     assert out.strip() == "", "/repo not clean"
